@@ -111,6 +111,12 @@ func main() {
 	p1()
 	t.Want(104)
 	p2()
+	// method expressions of the same types ($thunk wrappers)
+	x1, x2 := (*pa.T).P, (*pb.T).P
+	t.Want(103)
+	x1(&a)
+	t.Want(104)
+	x2(&b)
 	// same-named generic types of two packages with the same type argument
 	var ga g.G[int]
 	var gb sg.G[int]
